@@ -721,6 +721,7 @@ def run(ctx):
     core.lean_stage(ctx, MODULE, FILE, drivers=["drv_crew"])
     from harness.props import _tie
     _tie.crew_tie(ctx)  # layer 3: Method.survey_site, translated from the current source, is Crew.surveyStep/applyStep
+    _tie.estimate_tie(ctx)  # layer 3: crews of a method (= Crew.methodCrews) and the daily capacity estimate, translated over ℚ
     stage_steps(ctx)
     stage_multiday(ctx)
     stage_crew_count(ctx)
